@@ -76,7 +76,8 @@ class Spec(dict):
 
 
 # ------------------------------------------------------------------ generation
-_DESC = st.sampled_from([None, None, None, "d", "A description.", "two\nlines", "with \"quotes\"", "  lead", "x\n  indented\nz"])
+_DESC = st.sampled_from([None, None, None, None, "d", "A description.", "two\nlines", "with \"quotes\"", "  lead", "x\n  indented\nz",
+                         "ends with a quote\"", "ends with a backslash\\", "has \"\"\" inside", "caf\u00e9 \U0001F600", "trailing space "])
 _DEPR = st.sampled_from([None, None, None, None, "", "No longer supported", "use other"])
 
 
@@ -344,24 +345,30 @@ def _desc_sdl(d, indent=""):
     return indent + json.dumps(d, ensure_ascii=False) + "\n"
 
 
+def _applied(x):
+    return "".join(" " + a for a in x.get("applied", []) or [])
+
+
 def _depr(f):
     d = f.get("deprecated")
     if d is None:
-        return ""
+        return _applied(f)
     if d == "":
-        return " @deprecated"
-    return " @deprecated(reason: %s)" % json.dumps(d)
+        return " @deprecated" + _applied(f)
+    return " @deprecated(reason: %s)" % json.dumps(d) + _applied(f)
 
 
-def _args_sdl(args):
+def _args_sdl(args, with_desc=False):
     if not args:
         return ""
     parts = []
     for a in args:
         s = "%s: %s" % (a["name"], a["type"])
+        if with_desc and a.get("desc") is not None:
+            s = json.dumps(a["desc"], ensure_ascii=False) + " " + s
         if "default" in a:
             s += " = " + lit(a["default"])
-        parts.append(s)
+        parts.append(s + _applied(a))
     return "(" + ", ".join(parts) + ")"
 
 
@@ -370,22 +377,22 @@ def type_sdl(spec, name, with_desc=True):
     k = t["kind"]
     d = _desc_sdl(t.get("desc")) if with_desc else ""
     if k == "scalar":
-        return d + "scalar %s" % name
+        return d + "scalar %s%s" % (name, _applied(t))
     if k == "enum":
         vs = "".join("%s  %s%s\n" % (_desc_sdl(v.get("desc"), "  ") if with_desc else "", v["name"], _depr(v)) for v in t["values"])
-        return d + "enum %s {\n%s}" % (name, vs)
+        return d + "enum %s%s {\n%s}" % (name, _applied(t), vs)
     if k == "input":
-        fs = "".join("%s  %s: %s%s\n" % (_desc_sdl(f.get("desc"), "  ") if with_desc else "", f["name"], f["type"],
-                                          (" = " + lit(f["default"])) if "default" in f else "") for f in t["fields"])
-        return d + "input %s {\n%s}" % (name, fs)
+        fs = "".join("%s  %s: %s%s%s\n" % (_desc_sdl(f.get("desc"), "  ") if with_desc else "", f["name"], f["type"],
+                                            (" = " + lit(f["default"])) if "default" in f else "", _applied(f)) for f in t["fields"])
+        return d + "input %s%s {\n%s}" % (name, _applied(t), fs)
     if k == "union":
-        return d + "union %s = %s" % (name, " | ".join(t["members"]))
-    fs = "".join("%s  %s%s: %s%s\n" % (_desc_sdl(f.get("desc"), "  ") if with_desc else "", f["name"], _args_sdl(f.get("args")),
+        return d + "union %s%s = %s" % (name, _applied(t), " | ".join(t["members"]))
+    fs = "".join("%s  %s%s: %s%s\n" % (_desc_sdl(f.get("desc"), "  ") if with_desc else "", f["name"], _args_sdl(f.get("args"), with_desc),
                                         f["type"], _depr(f)) for f in t["fields"])
     if k == "interface":
-        return d + "interface %s {\n%s}" % (name, fs)
+        return d + "interface %s%s {\n%s}" % (name, _applied(t), fs)
     impl = (" implements " + " & ".join(t["interfaces"])) if t.get("interfaces") else ""
-    return d + "type %s%s {\n%s}" % (name, impl, fs)
+    return d + "type %s%s%s {\n%s}" % (name, impl, _applied(t), fs)
 
 
 def needs_schema_def(spec):
@@ -398,7 +405,7 @@ def needs_schema_def(spec):
 def to_sdl(spec, with_desc=True, force_schema_def=False):
     parts = []
     for d in spec.get("directives", []):
-        parts.append("%sdirective @%s%s on %s" % (_desc_sdl(d.get("desc")) if with_desc else "", d["name"], _args_sdl(d.get("args")), " | ".join(d["locations"])))
+        parts.append("%sdirective @%s%s on %s" % (_desc_sdl(d.get("desc")) if with_desc else "", d["name"], _args_sdl(d.get("args"), with_desc), " | ".join(d["locations"])))
     for n in spec["order"]:
         parts.append(type_sdl(spec, n, with_desc))
     if force_schema_def or needs_schema_def(spec):
